@@ -595,6 +595,50 @@ def run_history(ctx, text, hist, reps, case):
                 for m in (o.value if o.ok else []):
                     scribble_value(m.obj)
                     scribble_value(getattr(m, "root", None))
+    # one compiled query, ONE document object and ONE non-empty context object: a pass left unfinished (match, first_one,
+    # an iterator closed or abandoned, a consumer that raises), an in-place change, then a full evaluation
+    from rt.jp_oracle import _mutate
+
+    d1 = impl.fresh(hist[0][0])
+    live2 = impl.fresh(hist[0][1]) if hist[0][1] else {"k": 2, "list": ["a", 2], "o": {"a": 1}, "s": "ab", "names": ["a"]}
+    if isinstance(d1, (dict, list)):
+        for step in range(4):
+            how = r.choice(["match", "first_one", "closed-iterator", "abandoned-iterator", "consumer-raises", "async-aclose"])
+            try:
+                if how == "match":
+                    p.match(d1, filter_context=live2)
+                elif how == "first_one":
+                    p.query(d1, filter_context=live2).first_one()
+                elif how == "closed-iterator":
+                    it_ = iter(p.finditer(d1, filter_context=live2))
+                    next(it_, None)
+                    getattr(it_, "close", lambda: None)()
+                elif how == "abandoned-iterator":
+                    it_ = iter(p.finditer(d1, filter_context=live2))
+                    next(it_, None)
+                    del it_
+                elif how == "consumer-raises":
+                    for _m in p.finditer(d1, filter_context=live2):
+                        raise KeyError("stop")
+                else:
+                    async def part():
+                        ait = await p.finditer_async(d1, filter_context=live2)
+                        async for _m in ait:
+                            break
+                        await ait.aclose()
+                    asyncio.run(part())
+            except Exception:  # noqa: BLE001
+                pass
+            _mutate(r, d1, list(gen.MEM_LEAVES) + [[], {}, ["a"], {"a": 2}])
+            if r.random() < 0.5:
+                live2["k"] = r.choice([3, "a", None, 2])
+                live2["list"] = [r.choice(gen.MEM_LEAVES) for _ in range(3)]
+            got = outcome(lambda: records(p.finditer(d1, filter_context=live2)))
+            want = solo(text, d1, live2)
+            ctx.count("evaluations_after_an_unfinished_pass_and_an_in_place_change")
+            if got != want:
+                ctx.violation("stale-result-after-an-unfinished-pass-and-an-in-place-change", case, {"text": text, "step": step, "unfinished_pass": how, "got": repr(got)[:300], "solo_cache_off": repr(want)[:300]})
+                return
     if mutate_in_place(r, d0):
         ex = hist[0][1]
         kw = {"filter_context": impl.fresh(ex)} if ex is not None else {}
